@@ -14,20 +14,20 @@ TABLE = {
         ("Proofs/RecvRelP.v", ["ordered_prefix", "honest_step_ok_or_memory", "exec_stops_only_on_memory", "ordered_complete_buffered", "ordered_receive_available", "drained_is_empty"]),
         ("Proofs/SliceP.v", ["slices_partition", "ctor_reassembles"]),
         ("Proofs/PacketP.v", ["packet_roundtrip"]),
-        ("Proofs/SendRelP.v", ["sr_send_safe", "sr_get_packets_safe", "prompt_resend"]),
+        ("Proofs/SendRelP.v", ["sr_send_safe", "sr_get_packets_safe", "prompt_all", "prompt_small"]),
         ("Proofs/ConnP.v", ["cstep_safe", "crun_safe"]),
     ], "Safety: for every order, duplication and loss of honest packets and every interleaving of receive calls, what the application obtained is a byte-identical prefix of what was submitted. Liveness is stated as progress: once every part of a message has arrived it is buffered and receive_message hands it over; a due message that fits the budget is retransmitted at the next tick."),
     "C02": ("ReliableUnordered: each message delivered exactly once, intact", [
         ("Proofs/RecvRelP.v", ["unordered_exactly_once", "unordered_eager", "unordered_receive_available", "honest_step_ok_or_memory", "exec_stops_only_on_memory", "drained_is_empty"]),
         ("Proofs/SliceP.v", ["ctor_reassembles"]),
-        ("Proofs/SendRelP.v", ["sr_get_packets_safe", "prompt_resend"]),
+        ("Proofs/SendRelP.v", ["sr_get_packets_safe", "prompt_all", "prompt_small"]),
     ], ""),
     "C03": ("Message integrity / fragmentation", [
         ("Proofs/SliceP.v", ["slices_partition", "ctor_reassembles", "sctor_process_safe"]),
         ("Proofs/RecvRelP.v", ["ordered_prefix", "unordered_exactly_once"]),
         ("Proofs/PacketP.v", ["packet_roundtrip", "from_bytes_wf"]),
         ("Proofs/SendRelP.v", ["sr_get_packets_safe"]),
-        ("Proofs/SendUnrelP.v", ["su_get_packets_safe", "su_get_packets_spec"]),
+        ("Proofs/SendUnrelP.v", ["su_get_packets_safe", "su_get_packets_spec", "su_carried"]),
         ("Proofs/RecvUnrelP.v", ["ru_process_slice_safe", "unrel_outputs_submitted"]),
     ], ""),
     "C06": ("renet survives hostile packets", [
@@ -61,18 +61,19 @@ TABLE = {
     "C13": ("Every produced packet fits its carrier", [
         ("Proofs/PacketP.v", ["to_bytes_enc", "enc_len_small_reliable", "enc_len_small_unreliable", "enc_len_reliable_slice", "enc_len_unreliable_slice", "enc_len_ack"]),
         ("Proofs/AcksP.v", ["add_pending_ack_bound", "feed_bound"]),
-        ("Proofs/SendRelP.v", ["sr_packets_sizes"]),
-        ("Proofs/SendUnrelP.v", ["su_packets_sizes"]),
+        ("Proofs/SendRelP.v", ["sr_get_packets_sizes", "small_bodies_shape", "empty_packet_iff"]),
+        ("Proofs/SendUnrelP.v", ["su_get_packets_sizes"]),
         ("Proofs/ConnP.v", ["renet_packets_fit"]),
         ("Proofs/NPacketP.v", ["encode_length", "netcode_datagrams_fit"]),
     ], ""),
     "C14": ("Per-tick bandwidth budget, in channel priority order", [
         ("Proofs/SendRelP.v", ["sr_get_packets_safe"]),
-        ("Proofs/SendUnrelP.v", ["su_get_packets_safe", "su_get_packets_spec"]),
+        ("Proofs/SendRelP.v", ["budget_consumed_le_pending", "untransmitted_keep_stamp", "untransmitted_keep_stamp_slice"]),
+        ("Proofs/SendUnrelP.v", ["su_get_packets_safe", "su_get_packets_spec", "su_carried"]),
         ("Proofs/ConnP.v", ["budget_respected", "priority_order"]),
     ], ""),
     "C15": ("Retransmission: not before resend_time, promptly after it, never once acked", [
-        ("Proofs/SendRelP.v", ["no_early_resend", "transmission_stamps", "prompt_resend", "no_duplicates_in_tick", "acked_never_resent", "sr_ack_message_safe", "sr_ack_slice_safe"]),
+        ("Proofs/SendRelP.v", ["no_early_resend", "no_early_resend_slice", "transmission_stamps", "transmission_stamps_slice", "prompt_if_budget_left", "prompt_small", "prompt_all", "no_duplicates_in_tick", "acked_slice_not_resent", "acked_message_not_resent", "acked_flags_kept", "sr_ack_message_safe", "sr_ack_slice_safe"]),
     ], ""),
     "C16": ("Wire formats round-trip; acks = the set", [
         ("Proofs/VarintP.v", ["varint_roundtrip", "varint_bytes_len", "get_varint_sound"]),
@@ -134,9 +135,22 @@ def statement_of(path, lemma):
     text = strip_comments(open(os.path.join(COQ, path)).read())
     m = re.search(r"^(?:Theorem|Lemma|Corollary)\s+%s(?![\w'])(.*?)\.\s*\n\s*Proof" % re.escape(lemma), text, re.S | re.M)
     if not m:
-        return None
+        return checked_statement(path, lemma)
     body = m.group(1).strip()
     return body
+
+
+def checked_statement(path, lemma):
+    """For theorems stated inside a Section: ask Coq for the generalised statement."""
+    import subprocess
+    mod = path[:-2].split("/")[-1]
+    script = "\n".join(imports_of(path)) + f"\nFrom RenetV Require Import {mod}.\nOpen Scope N_scope.\nSet Printing Width 110.\nSet Printing Depth 100000.\nCheck {lemma}.\n"
+    r = subprocess.run(["coqtop", "-Q", COQ, "RenetV"], input=script, stdout=subprocess.PIPE, stderr=subprocess.STDOUT, text=True, timeout=300)
+    out = r.stdout
+    m = re.search(r"^(?:Coq < )*%s\s*\n\s*:(.*?)(?=\n\nCoq <|\nCoq <)" % re.escape(lemma), out, re.S | re.M)
+    if not m:
+        return None
+    return ": " + m.group(1).strip()
 
 
 def imports_of(path):
